@@ -128,8 +128,12 @@ struct Scenario {
         if (d > 0 && d < ((int64_t)1 << 55) && S.w.now_us < ((int64_t)1 << 60)) S.w.now_us += d;
       } else if (a.op == "cancel") S.do_cancel();
       else if (a.op == "inject" && a.a.size() >= 2) inject(a.a[0], atoi(a.a[1].c_str()));
-      else if (a.op == "reinit") { if (S.ch) { ares_reinit(S.ch); S.apply_servers(S.server_specs); S.reconfig_times.push_back(S.w.now_us); } }
-      else if (a.op == "setservers" && !a.a.empty()) { S.server_specs = a.a; S.apply_servers(S.server_specs); S.reconfig_times.push_back(S.w.now_us); }
+      else if (a.op == "reinit") { if (S.ch) { ares_reinit(S.ch); S.apply_servers(S.server_specs); S.reconfig_times.push_back(S.w.now_us); S.reconfig_ticks.push_back(++S.tick); } }
+      else if (a.op == "setservers" && !a.a.empty()) {
+        // "change" = the set of servers differs (re-ordering the same servers leaves cached answers as valid as before)
+        auto norm = [](const std::vector<std::string> &v) { std::set<std::string> o; for (auto &x : v) { Addr ad; if (Addr::parse(x, ad)) o.insert(ad.str()); } return o; };
+        bool changed = norm(S.server_specs) != norm(a.a);
+        S.server_specs = a.a; S.apply_servers(S.server_specs); if (changed) { S.reconfig_times.push_back(S.w.now_us); S.reconfig_ticks.push_back(++S.tick); } }
       else if (a.op == "srcaddr" && a.a.size() >= 2) { size_t i = (size_t)atoi(a.a[0].c_str()); Addr x; if (i < S.w.servers.size() && Addr::parse(a.a[1], x)) S.w.servers[i].source = x; }
       else if (a.op == "check" && !a.a.empty() && a.a[0] == "timeout") { if (S.ch) S.check_timeout_api(); }
     }
@@ -258,6 +262,53 @@ struct Scenario {
     for (auto &n : s.notes) vf::msg("NOTE %s\n", n.c_str());
   }
 
+  // ---- C08: soundness of cache hits (a miss is always allowed)
+  void monitor_c08(RunResult &r) {
+    Sim &S = s; World &w = S.w;
+    std::map<uint32_t, const Prov *> bys; for (auto &p : w.provs) bys[p.serial] = &p;
+    auto keyname = [](std::string n) { n = ref::lower(n); if (!n.empty() && n.back() == '.') n.pop_back(); return n; };
+    // time each reply was accepted (= entered the cache, if at all): completion time of the first request that got it with traffic of its own
+    std::map<uint32_t, int64_t> accepted_at; std::map<uint32_t, uint64_t> accepted_tick;
+    auto had_traffic = [&](const Req &q) { std::string k = keyname(q.name); for (size_t i = q.tx_at_start; i < q.tx_at_end && i < w.txs.size(); i++) if (w.txs[i].qname_lower == k || w.txs[i].qname_lower.rfind(k + ".", 0) == 0) return true; return false; };
+    for (auto &kv : S.reqs) { const Req &q = kv.second; if (q.calls != 1 || !had_traffic(q)) continue; for (uint32_t ser : q.serials) if (!accepted_at.count(ser) || q.tick_end < accepted_tick[ser]) { accepted_at[ser] = q.t_end; accepted_tick[ser] = q.tick_end; } }
+    for (auto &kv : S.reqs) { const Req &q = kv.second;
+      if (q.calls != 1 || q.serials.empty() || q.parent >= 0) continue;
+      if (q.kind != "query" && q.kind != "send" && q.kind != "lquery" && q.kind != "lsend" && q.kind != "getaddrinfo" && q.kind != "gethostbyname") continue;
+      if (had_traffic(q)) { r.counters["c08.answered_with_traffic"]++; continue; }
+      // answered without any transmission of its own question: a cache hit
+      r.counters["c08.hits"]++;
+      std::string k = keyname(q.name);
+      for (uint32_t ser : q.serials) { auto it = bys.find(ser); if (it == bys.end()) continue; const Prov &p = *it->second;
+        if (!p.genuine) continue;   // C05's business
+        std::string ctx = "request " + std::to_string(q.id) + " (" + q.kind + " " + q.name + ") was answered from the cache with the reply (serial " + std::to_string(ser) + ") to " + p.qname_lower + " type " + std::to_string(p.qtype);
+        if (S.opt.qcache == 0) fail(r, "C08.hit-with-cache-disabled", ctx);
+        if (p.qname_lower != k) fail(r, "C08.hit-for-different-name", ctx);
+        bool addr_kind = q.kind == "getaddrinfo" || q.kind == "gethostbyname";
+        if (!addr_kind && p.qtype != (uint16_t)q.qtype) fail(r, "C08.hit-for-different-type", ctx + "; asked type " + std::to_string(q.qtype));
+        if (addr_kind && p.qtype != 1 && p.qtype != 28) fail(r, "C08.hit-for-different-type", ctx);
+        if (p.tc) fail(r, "C08.truncated-reply-replayed", ctx);
+        if ((p.rcode & 0xfff) != 0 && (p.rcode & 0xfff) != 3) fail(r, "C08.error-rcode-replayed", ctx + " rcode " + std::to_string(p.rcode));
+        if (!accepted_at.count(ser)) { r.counters["c08.hit_without_known_insert"]++; continue; }
+        int64_t tins = accepted_at[ser];
+        for (uint64_t rt : S.reconfig_ticks) if (rt > accepted_tick[ser] && rt < q.tick_start) fail(r, "C08.hit-across-reconfiguration", ctx + "; the server list was changed / the channel re-initialised in between");
+        int64_t age_sec = q.t_start / 1000000 - tins / 1000000;
+        // lifetime its own TTLs allow
+        int64_t life;
+        bool negative = p.addrs.empty() && p.cnames.empty() && p.ttls.empty();
+        if (negative) life = p.has_soa ? std::min<int64_t>(p.soa_ttl, p.soa_min) : 0; else life = p.min_ttl;
+        if (S.opt.qcache >= 0) life = std::min<int64_t>(life, S.opt.qcache);
+        if (age_sec - 1 >= life) fail(r, negative ? "C08.negative-answer-replayed-beyond-soa-lifetime" : "C08.replayed-beyond-ttl", ctx + " " + std::to_string(age_sec) + "s after it was cached; lifetime allowed by its TTLs and the maximum is " + std::to_string(life) + "s");
+        if (age_sec > 0) { r.counters["c08.hits_after_time_passed"]++; if (prop == "C08") r.nontrivial = true; }
+        // every TTL visible through the API is reduced by the time spent cached (whole-second granularity)
+        auto ttl_ok = [&](int64_t got, int64_t orig) { int64_t hi = std::max<int64_t>(0, orig - std::max<int64_t>(0, age_sec - 1)), lo = std::max<int64_t>(0, orig - (age_sec + 1)); return got >= lo && got <= hi; };
+        if (age_sec >= 2) {
+          if ((q.api == "dnsrec" || q.api == "bytes") && q.rec_ttls.size() == p.ttls.size()) { for (size_t i = 0; i < p.ttls.size(); i++) if (!ttl_ok(q.rec_ttls[i], p.ttls[i])) { fail(r, "C08.ttl-not-decremented.api=" + q.api, ctx + ": record " + std::to_string(i) + " had TTL " + std::to_string(p.ttls[i]) + ", was cached " + std::to_string(age_sec) + "s, the callback saw " + std::to_string(q.rec_ttls[i])); break; } r.counters["c08.ttl_checks." + q.api]++; }
+          if (q.api == "addrinfo") { for (auto &a : q.addrs) for (size_t i = 0; i < p.addrs.size(); i++) if (p.addrs[i].second == a.addr && !ttl_ok(a.ttl, p.addr_ttls[i])) { fail(r, "C08.ttl-not-decremented.api=addrinfo", ctx + ": address record had TTL " + std::to_string(p.addr_ttls[i]) + ", was cached " + std::to_string(age_sec) + "s, ai_ttl is " + std::to_string(a.ttl)); break; } r.counters["c08.ttl_checks.addrinfo"]++; }
+        }
+      }
+    }
+  }
+
   RunResult finish() {
     RunResult r; Sim &S = s;
     if (!S.online.ok) r.v = S.online;
@@ -266,6 +317,7 @@ struct Scenario {
     if (prop == "C06" || prop == "C07" || prop == "C01") monitor_c06(r);
     monitor_c05(r);
     monitor_c20(r);
+    if (prop == "C08" || prop == "C05") monitor_c08(r);
     summarise(r);
     // non-triviality for C01 (DESIGN 5, C01)
     size_t nreq = 0, search2 = 0; for (auto &kv : S.reqs) if (kv.second.started) nreq++;
@@ -307,7 +359,7 @@ struct Scenario {
       bool tcp_attempted = false; for (auto &k : w.socks) if (k.tcp && k.server >= 0 && k.opened_at >= t.t) tcp_attempted = true;
       if (!upgraded && !tcp_attempted && q && q->calls == 1 && q->status == ARES_SUCCESS && q->tx_at_end > t.seq) { bool from_tc = false; for (uint32_t ser : q->serials) if (ser == t.serial) from_tc = true; if (from_tc) fail(r, "C20.truncated-udp-answer-accepted", "request " + std::to_string(t.req) + " was completed with a truncated UDP answer although IGNTC is not set"); }
       // ... and it must actually go out over TCP: with a well-behaved virtual network nothing prevents the TCP transmission
-      if (!upgraded && q && q->calls == 1 && q->status == ARES_ETIMEOUT && !r.counters["c20.conn_killing_outcomes"]) fail(r, "C20.truncated-answer-not-retried-over-tcp", "request " + std::to_string(t.req) + " got a truncated UDP answer for " + t.qname_lower + " and then timed out without the question ever reaching the server over TCP");
+      if (prop == "C20" && !upgraded && q && q->calls == 1 && q->status == ARES_ETIMEOUT && !r.counters["c20.conn_killing_outcomes"]) fail(   // (C20 scenarios have no clock jumps and one name per request)r, "C20.truncated-answer-not-retried-over-tcp", "request " + std::to_string(t.req) + " got a truncated UDP answer for " + t.qname_lower + " and then timed out without the question ever reaching the server over TCP");
       r.counters[upgraded ? "c20.tc_upgraded_to_tcp" : "c20.tc_not_upgraded"]++;
     }
     r.counters["c20.split_reads"] += w.split_reads; r.counters["c20.short_writes"] += w.short_writes; r.counters["c20.blocked_writes"] += w.blocked_writes;
